@@ -1,0 +1,10 @@
+//go:build verif
+
+package diff
+
+import "sync/atomic"
+
+// VerifEquivCalls counts invocations of Zipper.areEquivalent (verification builds only).
+var VerifEquivCalls atomic.Int64
+
+func verifCountEquiv() { VerifEquivCalls.Add(1) }
